@@ -162,6 +162,7 @@ impl Property for C02 {
                 props: env.props,
                 labels: env.labels,
                 cfg: inner_env_cfg,
+                binders: env.binders,
             };
             let mut scope = vec!["x".to_string()];
             let body = gen::resolve_f_in_scope(&raws[1], &inner_env, &mut scope);
